@@ -849,7 +849,11 @@ pub fn encode_json_str_to_native_script(
 
     let native_script = match schema {
         ScriptSchema::Wallet => encode_wallet_value_to_native_script(value, self_xpub)?,
-        ScriptSchema::Node => todo!(),
+        ScriptSchema::Node => {
+            return Err(JsError::from_str(
+                "ScriptSchema::Node is not supported: only the wallet schema can be converted",
+            ))
+        }
     };
 
     Ok(native_script)
